@@ -35,6 +35,10 @@ macro_rules | `(tactic| good_leaf) => `(tactic| with_reducible first
   | exact good_finishFn
   | fail)
 
+/-- side goals `isJumpOp op = true ∨ op = OpSetupTry` -/
+syntax "jmp" : tactic
+macro_rules | `(tactic| jmp) => `(tactic| first | exact .inl rfl | exact .inr rfl | (split <;> exact .inl rfl))
+
 /-- size side conditions -/
 syntax "sz" : tactic
 macro_rules | `(tactic| sz) => `(tactic| (simp at *; omega))
@@ -197,7 +201,7 @@ theorem step_expr {n : Nat} (ih : AllGood n) (e : Expr) (hsz : sizeOf e < n + 1)
     · intro s hs
       have hst := St.init hs
       apply st_good_bind h1 hst; intro _ s1 _ hst
-      apply st_emit_bind hst (by opc) (.inl (by opa)); intro s2 hst
+      apply st_emit_bind hst (by opc) (by jmp) (.inl (by opa)); intro s2 hst
       apply st_good_bind h2 hst; intro _ s3 _ hst
       apply st_curPos_bind hst; intro hst
       exact st_changeOperand hst (by simp) (argsIn_one (.inr (by simp))) (fun s' h => st_done h)
@@ -250,16 +254,24 @@ theorem step_expr {n : Nat} (ih : AllGood n) (e : Expr) (hsz : sizeOf e < n + 1)
   | func pos variadic params bp body =>
     rw [okE] at hok
     have hb := ih.stmts body (by sz) hok
-    have hw := goodP_withFn pos variadic params (good_blockOf (body := body) hb)
+    have hw := goodS_withFn pos variadic params (good_blockOf (body := body) hb)
     unfold compileExpr
-    refine GoodP.bind hw fun r hr => ?_
+    intro s hs
+    apply Sat.bind
+    apply Sat.mono (hw s hs)
+    intro r s1 ⟨hi1, hr1, hfn⟩
     obtain ⟨fn, ft⟩ := r
     simp only
-    refine GoodP.bind (P := fun _ => True) (good_emitFreePtrs pos ft.frees) fun _ _ => ?_
+    apply Sat.bind
+    apply Sat.mono (good_emitFreePtrs pos ft.frees s1 hi1)
+    intro _ s2 ⟨hi2, hr2, _⟩
     split
-    · exact GoodP.throw_err
+    · exact Sat.throw_err
     · rename_i hle
-      exact good_emitFnConstant pos fn _ ⟨by omega, hr⟩
+      have hle' : fn.numLocals ≤ 256 := Nat.le_of_not_gt hle
+      apply Sat.mono (sat_emitFnConstant hi2 ⟨hle', hfn.mono hr2.csz⟩)
+      intro _ s3 ⟨hi3, hr3, _⟩
+      exact ⟨hi3, hr1.trans (hr2.trans hr3), trivial⟩
   | call pos ell f args =>
     rw [okE, Bool.and_eq_true] at hok
     have ha := ih.exprs args (by sz) hok.2
@@ -285,9 +297,9 @@ theorem step_expr {n : Nat} (ih : AllGood n) (e : Expr) (hsz : sizeOf e < n + 1)
     · intro s hs
       have hst := St.init hs
       apply st_good_bind hc hst; intro _ s1 _ hst
-      apply st_emit_bind hst (by decide) (.inl (by opa)); intro s2 hst
+      apply st_emit_bind hst (by decide) (by jmp) (.inl (by opa)); intro s2 hst
       apply st_good_bind ht hst; intro _ s3 _ hst
-      apply st_emit_bind hst (by decide) (.inl (by opa)); intro s4 hst
+      apply st_emit_bind hst (by decide) (by jmp) (.inl (by opa)); intro s4 hst
       apply st_curPos_bind hst; intro hst
       apply st_changeOperand_bind hst (by simp) (argsIn_one (.inr (by simp))); intro s6 hst
       apply st_good_bind hf hst; intro _ s7 _ hst
@@ -489,7 +501,7 @@ theorem st_ifTail {n : Nat} (ih : AllGood n) (pos : Pos) (els : Option Stmt)
   | some e =>
     have he := ih.stmt e (by sz) hok
     simp only
-    apply st_emit_bind hst (by decide) (.inl (by opa)); intro s1 hst
+    apply st_emit_bind hst (by decide) (by jmp) (.inl (by opa)); intro s1 hst
     apply st_curPos_bind hst; intro hst
     apply st_changeOperand_bind hst (by simp [hj]) (argsIn_one (.inr (by simp))); intro s3 hst
     apply st_good_bind he hst; intro _ s4 _ hst
@@ -542,10 +554,10 @@ theorem step_stmt {n : Nat} (ih : AllGood n) (st : Stmt) (hsz : sizeOf st < n + 
     apply st_good_bind hinit hst; intro _ s1 _ hst
     split
     · exact Sat.mono (hb s1 hst.inv) fun _ s' ⟨h1, h2, _⟩ => st_done (hst.step h1 h2)
-    · apply st_emit_bind hst (by decide) (.inl (by opa)); intro s2 hst
+    · apply st_emit_bind hst (by decide) (by jmp) (.inl (by opa)); intro s2 hst
       exact st_ifTail ih pos els hok.2 hels hst (by simp)
     · apply st_good_bind hc hst; intro _ s2 _ hst
-      apply st_emit_bind hst (by decide) (.inl (by opa)); intro s3 hst
+      apply st_emit_bind hst (by decide) (by jmp) (.inl (by opa)); intro s3 hst
       apply st_good_bind hb hst; intro _ s4 _ hst
       exact st_ifTail ih pos els hok.2 hels hst (by simp)
   | for_ pos init cond post bp body =>
@@ -566,7 +578,7 @@ theorem step_stmt {n : Nat} (ih : AllGood n) (st : Stmt) (hsz : sizeOf st < n + 
       apply st_withLoop_bind hb hst; intro loop s4 hst
       apply st_curPos_bind hst; intro hst
       apply st_good_bind hpost hst; intro _ s6 _ hst
-      apply st_emit__bind hst (by decide) (.inr (argsIn_one (.inr (by simp)))); intro s7 hst
+      apply st_emit__bind hst (by decide) (.inr ⟨argsIn_one (.inr (by simp)), .inl rfl⟩); intro s7 hst
       apply st_curPos_bind hst; intro hst
       apply st_patchAll_bind hst (by intro p hp; simp [hp]) (by simp); intro s9 hst
       exact st_patchAll hst (by intro p hp; simp [hp]) (by simp) (fun s' h => st_done h)
@@ -575,11 +587,11 @@ theorem step_stmt {n : Nat} (ih : AllGood n) (st : Stmt) (hsz : sizeOf st < n + 
       have hc := ih.expr c (by sz) hok.1.1.2
       simp only [bind_assoc, pure_bind]
       apply st_good_bind hc hst; intro _ s3 _ hst
-      apply st_emit_bind hst (by decide) (.inl (by opa)); intro s3' hst
+      apply st_emit_bind hst (by decide) (by jmp) (.inl (by opa)); intro s3' hst
       apply st_withLoop_bind hb hst; intro loop s4 hst
       apply st_curPos_bind hst; intro hst
       apply st_good_bind hpost hst; intro _ s6 _ hst
-      apply st_emit__bind hst (by decide) (.inr (argsIn_one (.inr (by simp)))); intro s7 hst
+      apply st_emit__bind hst (by decide) (.inr ⟨argsIn_one (.inr (by simp)), .inl rfl⟩); intro s7 hst
       apply st_curPos_bind hst; intro hst
       apply st_changeOperand_bind hst (by simp) (argsIn_one (.inr (by simp))); intro s9 hst
       apply st_patchAll_bind hst (by intro p hp; simp [hp]) (by simp); intro s10 hst
@@ -603,7 +615,7 @@ theorem step_stmt {n : Nat} (ih : AllGood n) (st : Stmt) (hsz : sizeOf st < n + 
       apply st_curPos_bind hst; intro hst
       apply st_good_bind (good_emit_ (by decide) (by opa)) hst; intro _ s6 _ hst
       apply st_good_bind (good_emit_ (by decide) (by opa)) hst; intro _ s7 _ hst
-      apply st_emit_bind hst (by decide) (.inl (by opa)); intro s8 hst
+      apply st_emit_bind hst (by decide) (by jmp) (.inl (by opa)); intro s8 hst
       have hbody : Good (do
           forinVar pos itSym.index OpIterKey key
           forinVar pos itSym.index OpIterValue value
@@ -612,7 +624,7 @@ theorem step_stmt {n : Nat} (ih : AllGood n) (st : Stmt) (hsz : sizeOf st < n + 
           GoodP.bind (good_forinVar pos _ (by decide) (by opa) value) fun _ _ => hb
       apply st_withLoop_bind hbody hst; intro loop s9 hst
       apply st_curPos_bind hst; intro hst
-      apply st_emit__bind hst (by decide) (.inr (argsIn_one (.inr (by simp)))); intro s11 hst
+      apply st_emit__bind hst (by decide) (.inr ⟨argsIn_one (.inr (by simp)), .inl rfl⟩); intro s11 hst
       apply st_curPos_bind hst; intro hst
       apply st_changeOperand_bind hst (by simp) (argsIn_one (.inr (by simp))); intro s13 hst
       apply st_patchAll_bind hst (by intro p hp; simp [hp]) (by simp); intro s14 hst
@@ -640,21 +652,21 @@ theorem step_stmt {n : Nat} (ih : AllGood n) (st : Stmt) (hsz : sizeOf st < n + 
       cases f with
       | none =>
         simp only
-        apply st_emit_bind hst (by decide) (.inl (by opa)); intro s' hst'
-        exact hg _ s' (hst'.weaken (fun p hp => by simp [hp]) (fun t ht => ht))
+        apply st_emit_tgt_bind hst (by decide) (.inl (by opa)); intro s' hst' _
+        exact hg _ s' hst'
       | some fv =>
         obtain ⟨f1, f2, f3⟩ := fv
         have hfb := ih.stmts f3 (by sz) hok.2
         simp only [bind_assoc, pure_bind]
-        apply st_emit_bind hst (by decide) (.inl (by opa)); intro s' hst'
+        apply st_emit_tgt_bind hst (by decide) (.inl (by opa)); intro s' hst' _
         apply st_good_bind hfb hst'; intro _ s'' _ hst''
-        exact hg _ s'' (hst''.weaken (fun p hp => by simp [hp]) (fun t ht => ht))
+        exact hg _ s'' hst''
     rw [compileStmt_eq]; simp only
     refine GoodP.bind (P := fun _ => True) (good_withBlock ?_) (fun _ _ => ?_)
     · intro s hs
       have hst := St.init hs
       apply st_good_bind (good_tryIdx (· + 1)) hst; intro _ s1 _ hst
-      apply st_emit_bind hst (by decide) (.inl (by opa)); intro s2 hst
+      apply st_emit_bind hst (by decide) (by jmp) (.inl (by opa)); intro s2 hst
       apply st_good_bind hbody hst; intro _ s3 _ hst
       cases c with
       | none =>
@@ -672,7 +684,7 @@ theorem step_stmt {n : Nat} (ih : AllGood n) (st : Stmt) (hsz : sizeOf st < n + 
             | none => emit_ cpos OpPop) := by cases ident <;> good
         simp only
         apply st_good_bind hid1 hst; intro _ s4 _ hst
-        apply st_emit_bind hst (by decide) (.inl (by opa)); intro s5 hst
+        apply st_emit_bind hst (by decide) (by jmp) (.inl (by opa)); intro s5 hst
         apply st_curPos_bind hst; intro hst
         apply st_good_bind (good_emit_ (by decide) (by opa)) hst; intro _ s7 _ hst
         apply st_good_bind hid2 hst; intro _ s8 _ hst
